@@ -117,11 +117,12 @@ TypeOK ==
                        /\ Cardinality(st.call.parties) = (IF st.call.accepted THEN 2 ELSE 1)
                        /\ \A x \in st.call.parties \ {st.call.orig} : SessUser[x] \in Members \ {st.call.origUid}
   /\ ~st.call.active => st.call = NoCall
+  /\ st.armed = (st.call.active /\ ~st.call.accepted)
 \* as intended, a party session is always alive (and the topic hears of its departure)
 PartiesAlive == st.call.active => st.call.parties \subseteq st.live
 \* with the repair variant a party is always attached
 PartiesAttached == st.call.active => st.call.parties \subseteq st.att
-EndsOnce == EndsOnceState(st)
+EndsOnce == EndsOnceState(st, {})
 \* not configured: nothing call-related ever exists
 NothingWhenNotConfigured == Configured \/ (~st.call.active /\ Invitations(st.msgs) = {})
 
